@@ -85,98 +85,208 @@ Qed.
 
 Definition u (i j : nat) : N := if Nat.eqb i j then 1%N else 0%N.
 
-Section Feat.
-Variable i : nat.
-
-Fixpoint f_ty (t : ty) : N :=
+Fixpoint f_ty (i : nat) (t : ty) {struct t} : N :=
   match t with
-  | TyNode _ subs es => (u i 7 + (sumN (map f_ty subs) + sumN (map f_expr es)))%N
+  | TyNode _ subs es => (u i 7 + (sumN (map (f_ty i) subs) + sumN (map (f_expr i) es)))%N
   end
 
-with f_expr (e : expr) : N :=
+with f_expr (i : nat) (e : expr) {struct e} : N :=
   match e with
   | ENil | ETrue | EFalse | EString _ | EVarArgs | EIdent _ => 0%N
   | ENumber n => if luau_number n then u i 5 else 0%N
-  | EInterp segs => (u i 3 + sumN (map f_iseg segs))%N
-  | EField p _ => f_expr p
-  | EIndex p k => (f_expr p + f_expr k)%N
-  | ECall p _ a => (f_expr p + f_args a)%N
-  | EFunction f => f_fbody f
-  | EIf bs els => (u i 2 + (sumN (map f_ebranch bs) + f_expr els))%N
-  | EParen e' => f_expr e'
-  | ETable entries => sumN (map f_tentry entries)
-  | EUnary _ e' => f_expr e'
-  | EBinary op l r => ((match op with BIDiv => u i 4 | _ => 0 end) + (f_expr l + f_expr r))%N
-  | ETypeCast e' t => (u i 7 + (f_expr e' + f_ty t))%N
-  | ETypeInst p tys => (u i 7 + (f_expr p + sumN (map f_ty tys)))%N
+  | EInterp segs => (u i 3 + sumN (map (f_iseg i) segs))%N
+  | EField p _ => f_expr i p
+  | EIndex p k => (f_expr i p + f_expr i k)%N
+  | ECall p _ a => (f_expr i p + f_args i a)%N
+  | EFunction f => f_fbody i f
+  | EIf bs els => (u i 2 + (sumN (map (f_ebranch i) bs) + f_expr i els))%N
+  | EParen e' => f_expr i e'
+  | ETable entries => sumN (map (f_tentry i) entries)
+  | EUnary _ e' => f_expr i e'
+  | EBinary op l r => ((match op with BIDiv => u i 4 | _ => 0 end) + (f_expr i l + f_expr i r))%N
+  | ETypeCast e' t => (u i 7 + (f_expr i e' + f_ty i t))%N
+  | ETypeInst p tys => (u i 7 + (f_expr i p + sumN (map (f_ty i) tys)))%N
   end
 
-with f_iseg (s : iseg) : N :=
-  match s with ISStr _ => 0%N | ISExpr e => f_expr e end
+with f_iseg (i : nat) (s : iseg) {struct s} : N :=
+  match s with ISStr _ => 0%N | ISExpr e => f_expr i e end
 
-with f_ebranch (b : ebranch) : N :=
-  match b with EBranch c r => (f_expr c + f_expr r)%N end
+with f_ebranch (i : nat) (b : ebranch) {struct b} : N :=
+  match b with EBranch c r => (f_expr i c + f_expr i r)%N end
 
-with f_args (a : args) : N :=
+with f_args (i : nat) (a : args) {struct a} : N :=
   match a with
-  | ATuple es => sumN (map f_expr es)
+  | ATuple es => sumN (map (f_expr i) es)
   | AString _ => 0%N
-  | ATable entries => sumN (map f_tentry entries)
+  | ATable entries => sumN (map (f_tentry i) entries)
   end
 
-with f_tentry (t : tentry) : N :=
+with f_tentry (i : nat) (t : tentry) {struct t} : N :=
   match t with
-  | TField _ v => f_expr v
-  | TIndex k v => (f_expr k + f_expr v)%N
-  | TValue v => f_expr v
+  | TField _ v => f_expr i v
+  | TIndex k v => (f_expr i k + f_expr i v)%N
+  | TValue v => f_expr i v
   end
 
-with f_fbody (f : fbody) : N :=
+with f_fbody (i : nat) (f : fbody) {struct f} : N :=
   match f with
   | FBody ps _ vt rt gen attrs body =>
-    (sumN (map f_param ps) + (optN f_ty vt + (optN f_ty rt + (optN f_ty gen
-       + ((if (attrs =? 0)%N then 0 else u i 8) + f_block body)))))%N
+    (sumN (map (f_param i) ps) + (optN (f_ty i) vt + (optN (f_ty i) rt + (optN (f_ty i) gen
+       + ((if (attrs =? 0)%N then 0 else u i 8) + f_block i body)))))%N
   end
 
-with f_param (p : param) : N :=
-  match p with Param _ t => optN f_ty t end
+with f_param (i : nat) (p : param) {struct p} : N :=
+  match p with Param _ t => optN (f_ty i) t end
 
-with f_stmt (s : stmt) : N :=
+with f_stmt (i : nat) (s : stmt) {struct s} : N :=
   match s with
-  | SAssign vars vals => (sumN (map f_expr vars) + sumN (map f_expr vals))%N
-  | SDo b => f_block b
-  | SCall c => f_expr c
+  | SAssign vars vals => (sumN (map (f_expr i) vars) + sumN (map (f_expr i) vals))%N
+  | SDo b => f_block i b
+  | SCall c => f_expr i c
   | SCompound op var v =>
-    (u i 0 + ((match op with BIDiv => u i 4 | _ => 0 end) + (f_expr var + f_expr v)))%N
-  | SFunction _ _ _ f => f_fbody f
-  | SGenericFor vars es b => (sumN (map f_param vars) + (sumN (map f_expr es) + f_block b))%N
-  | SIf bs els => (sumN (map f_sbranch bs) + optN f_block els)%N
+    (u i 0 + ((match op with BIDiv => u i 4 | _ => 0 end) + (f_expr i var + f_expr i v)))%N
+  | SFunction _ _ _ f => f_fbody i f
+  | SGenericFor vars es b => (sumN (map (f_param i) vars) + (sumN (map (f_expr i) es) + f_block i b))%N
+  | SIf bs els => (sumN (map (f_sbranch i) bs) + optN (f_block i) els)%N
   | SLocal is_const vars vals =>
-    ((if is_const then u i 6 else 0) + (sumN (map f_param vars) + sumN (map f_expr vals)))%N
-  | SLocalFunction _ f => f_fbody f
+    ((if is_const then u i 6 else 0) + (sumN (map (f_param i) vars) + sumN (map (f_expr i) vals)))%N
+  | SLocalFunction _ f => f_fbody i f
   | SNumericFor var a b step body =>
-    (f_param var + (f_expr a + (f_expr b + (optN f_expr step + f_block body))))%N
-  | SRepeat b c => (f_block b + f_expr c)%N
-  | SWhile c b => (f_expr c + f_block b)%N
-  | STypeDecl _ _ gen t => (u i 7 + (optN f_ty gen + f_ty t))%N
-  | STypeFunction _ _ f => (u i 7 + f_fbody f)%N
+    (f_param i var + (f_expr i a + (f_expr i b + (optN (f_expr i) step + f_block i body))))%N
+  | SRepeat b c => (f_block i b + f_expr i c)%N
+  | SWhile c b => (f_expr i c + f_block i b)%N
+  | STypeDecl _ _ gen t => (u i 7 + (optN (f_ty i) gen + f_ty i t))%N
+  | STypeFunction _ _ f => (u i 7 + f_fbody i f)%N
   end
 
-with f_sbranch (b : sbranch) : N :=
-  match b with SBranch c body => (f_expr c + f_block body)%N end
+with f_sbranch (i : nat) (b : sbranch) {struct b} : N :=
+  match b with SBranch c body => (f_expr i c + f_block i body)%N end
 
-with f_block (b : block) : N :=
+with f_block (i : nat) (b : block) {struct b} : N :=
   match b with
-  | Block stmts last => (sumN (map f_stmt stmts) + optN f_last last)%N
+  | Block stmts last => (sumN (map (f_stmt i) stmts) + optN (f_last i) last)%N
   end
 
-with f_last (l : laststmt) : N :=
+with f_last (i : nat) (l : laststmt) {struct l} : N :=
   match l with
   | LBreak => 0%N
   | LContinue => u i 1
-  | LReturn es => sumN (map f_expr es)
+  | LReturn es => sumN (map (f_expr i) es)
   end.
-End Feat.
+
+(** unfolding equations for the constructors that carry lists ([cbn] would leave the raw
+    mutual fixpoint under [map]) *)
+Lemma f_ty_eq i k subs es : f_ty i (TyNode k subs es) = (u i 7 + (sumN (map (f_ty i) subs) + sumN (map (f_expr i) es)))%N.
+Proof. reflexivity. Qed.
+Lemma f_expr_interp_eq i segs : f_expr i (EInterp segs) = (u i 3 + sumN (map (f_iseg i) segs))%N.
+Proof. reflexivity. Qed.
+Lemma f_expr_if_eq i bs els : f_expr i (EIf bs els) = (u i 2 + (sumN (map (f_ebranch i) bs) + f_expr i els))%N.
+Proof. reflexivity. Qed.
+Lemma f_expr_table_eq i en : f_expr i (ETable en) = sumN (map (f_tentry i) en).
+Proof. reflexivity. Qed.
+Lemma f_expr_inst_eq i p tys : f_expr i (ETypeInst p tys) = (u i 7 + (f_expr i p + sumN (map (f_ty i) tys)))%N.
+Proof. reflexivity. Qed.
+Lemma f_args_tuple_eq i es : f_args i (ATuple es) = sumN (map (f_expr i) es).
+Proof. reflexivity. Qed.
+Lemma f_args_table_eq i en : f_args i (ATable en) = sumN (map (f_tentry i) en).
+Proof. reflexivity. Qed.
+Lemma f_fbody_eq i ps va vt rt gen attrs body :
+  f_fbody i (FBody ps va vt rt gen attrs body) =
+  (sumN (map (f_param i) ps) + (optN (f_ty i) vt + (optN (f_ty i) rt + (optN (f_ty i) gen
+     + ((if (attrs =? 0)%N then 0 else u i 8) + f_block i body)))))%N.
+Proof. reflexivity. Qed.
+Lemma f_param_eq i x t : f_param i (Param x t) = optN (f_ty i) t.
+Proof. reflexivity. Qed.
+Lemma f_stmt_assign_eq i vars vals : f_stmt i (SAssign vars vals) = (sumN (map (f_expr i) vars) + sumN (map (f_expr i) vals))%N.
+Proof. reflexivity. Qed.
+Lemma f_stmt_genfor_eq i vars es b :
+  f_stmt i (SGenericFor vars es b) = (sumN (map (f_param i) vars) + (sumN (map (f_expr i) es) + f_block i b))%N.
+Proof. reflexivity. Qed.
+Lemma f_stmt_if_eq i bs els : f_stmt i (SIf bs els) = (sumN (map (f_sbranch i) bs) + optN (f_block i) els)%N.
+Proof. reflexivity. Qed.
+Lemma f_stmt_local_eq i c vars vals :
+  f_stmt i (SLocal c vars vals) = ((if c then u i 6 else 0) + (sumN (map (f_param i) vars) + sumN (map (f_expr i) vals)))%N.
+Proof. reflexivity. Qed.
+Lemma f_stmt_numfor_eq i var a b step body :
+  f_stmt i (SNumericFor var a b step body) =
+  (f_param i var + (f_expr i a + (f_expr i b + (optN (f_expr i) step + f_block i body))))%N.
+Proof. reflexivity. Qed.
+Lemma f_stmt_typedecl_eq i ex x gen t : f_stmt i (STypeDecl ex x gen t) = (u i 7 + (optN (f_ty i) gen + f_ty i t))%N.
+Proof. reflexivity. Qed.
+Lemma f_block_eq i ss last : f_block i (Block ss last) = (sumN (map (f_stmt i) ss) + optN (f_last i) last)%N.
+Proof. reflexivity. Qed.
+Lemma f_last_return_eq i es : f_last i (LReturn es) = sumN (map (f_expr i) es).
+Proof. reflexivity. Qed.
+
+Ltac feq :=
+  rewrite ?f_ty_eq, ?f_expr_interp_eq, ?f_expr_if_eq, ?f_expr_table_eq, ?f_expr_inst_eq, ?f_args_tuple_eq,
+    ?f_args_table_eq, ?f_fbody_eq, ?f_param_eq, ?f_stmt_assign_eq, ?f_stmt_genfor_eq, ?f_stmt_if_eq, ?f_stmt_local_eq,
+    ?f_stmt_numfor_eq, ?f_stmt_typedecl_eq, ?f_block_eq, ?f_last_return_eq.
+
+Lemma w_ty_eq k subs es : w_ty (TyNode k subs es) = S (sum (map w_ty subs) + sum (map w_expr es)).
+Proof. reflexivity. Qed.
+Lemma w_expr_interp_eq segs : w_expr (EInterp segs) = 8 + sum (map w_iseg segs).
+Proof. reflexivity. Qed.
+Lemma w_expr_if_eq bs els : w_expr (EIf bs els) = S (sum (map w_ebranch bs) + w_expr els).
+Proof. reflexivity. Qed.
+Lemma w_expr_table_eq en : w_expr (ETable en) = S (sum (map w_tentry en)).
+Proof. reflexivity. Qed.
+Lemma w_expr_inst_eq p tys : w_expr (ETypeInst p tys) = 2 + (w_expr p + sum (map w_ty tys)).
+Proof. reflexivity. Qed.
+Lemma w_args_tuple_eq es : w_args (ATuple es) = S (sum (map w_expr es)).
+Proof. reflexivity. Qed.
+Lemma w_args_table_eq en : w_args (ATable en) = S (sum (map w_tentry en)).
+Proof. reflexivity. Qed.
+Lemma w_fbody_eq ps va vt rt gen attrs body :
+  w_fbody (FBody ps va vt rt gen attrs body) =
+  S (sum (map w_param ps) + (wopt w_ty vt + (wopt w_ty rt + (wopt w_ty gen + w_block body)))).
+Proof. reflexivity. Qed.
+Lemma w_param_eq x t : w_param (Param x t) = S (wopt w_ty t).
+Proof. reflexivity. Qed.
+Lemma w_stmt_assign_eq vars vals : w_stmt (SAssign vars vals) = S (sum (map w_expr vars) + sum (map w_expr vals)).
+Proof. reflexivity. Qed.
+Lemma w_stmt_genfor_eq vars es b :
+  w_stmt (SGenericFor vars es b) = S (sum (map w_param vars) + (sum (map w_expr es) + w_block b)).
+Proof. reflexivity. Qed.
+Lemma w_stmt_if_eq bs els : w_stmt (SIf bs els) = S (sum (map w_sbranch bs) + wopt w_block els).
+Proof. reflexivity. Qed.
+Lemma w_stmt_local_eq c vars vals : w_stmt (SLocal c vars vals) = S (sum (map w_param vars) + sum (map w_expr vals)).
+Proof. reflexivity. Qed.
+Lemma w_stmt_numfor_eq var a b step body :
+  w_stmt (SNumericFor var a b step body) =
+  S (w_param var + (w_expr a + (w_expr b + (wopt w_expr step + w_block body)))).
+Proof. reflexivity. Qed.
+Lemma w_stmt_typedecl_eq ex x gen t : w_stmt (STypeDecl ex x gen t) = S (wopt w_ty gen + w_ty t).
+Proof. reflexivity. Qed.
+Lemma w_block_eq ss last : w_block (Block ss last) = S (sum (map w_stmt ss) + wopt w_last last).
+Proof. reflexivity. Qed.
+Lemma w_last_return_eq es : w_last (LReturn es) = S (sum (map w_expr es)).
+Proof. reflexivity. Qed.
+
+Ltac weq :=
+  rewrite ?w_ty_eq, ?w_expr_interp_eq, ?w_expr_if_eq, ?w_expr_table_eq, ?w_expr_inst_eq, ?w_args_tuple_eq,
+    ?w_args_table_eq, ?w_fbody_eq, ?w_param_eq, ?w_stmt_assign_eq, ?w_stmt_genfor_eq, ?w_stmt_if_eq, ?w_stmt_local_eq,
+    ?w_stmt_numfor_eq, ?w_stmt_typedecl_eq, ?w_block_eq, ?w_last_return_eq.
+Ltac weq_in H :=
+  rewrite ?w_ty_eq, ?w_expr_interp_eq, ?w_expr_if_eq, ?w_expr_table_eq, ?w_expr_inst_eq, ?w_args_tuple_eq,
+    ?w_args_table_eq, ?w_fbody_eq, ?w_param_eq, ?w_stmt_assign_eq, ?w_stmt_genfor_eq, ?w_stmt_if_eq, ?w_stmt_local_eq,
+    ?w_stmt_numfor_eq, ?w_stmt_typedecl_eq, ?w_block_eq, ?w_last_return_eq in H.
+
+Lemma sum_nil : sum [] = 0. Proof. reflexivity. Qed.
+Lemma sumN_nil : sumN [] = 0%N. Proof. reflexivity. Qed.
+
+(** unfold [w_*] / [f_*] on constructors; [cbn] leaves the raw mutual fixpoint under [map],
+    [fold] restores the constants *)
+Ltac wfold := fold w_ty w_expr w_iseg w_ebranch w_args w_tentry w_fbody w_param w_stmt w_sbranch w_block w_last.
+Ltac wsimp :=
+  repeat (progress (cbn [map wopt w_ty w_expr w_iseg w_ebranch w_args w_tentry w_fbody w_param w_stmt w_sbranch
+                         w_block w_last]; wfold; rewrite ?sum_cons, ?sum_nil)).
+Ltac ffold j :=
+  fold (f_ty j) (f_expr j) (f_iseg j) (f_ebranch j) (f_args j) (f_tentry j) (f_fbody j) (f_param j) (f_stmt j)
+       (f_sbranch j) (f_block j) (f_last j).
+Ltac fsimp j :=
+  repeat (progress (cbn [map optN f_ty f_expr f_iseg f_ebranch f_args f_tentry f_fbody f_param f_stmt f_sbranch
+                         f_block f_last]; ffold j; rewrite ?sumN_cons, ?sumN_nil)).
 
 (** * Bridge to the vectors of [Lua/Census.v] *)
 
